@@ -1,5 +1,7 @@
 import NdnProofs.Props.C01
 import NdnGen.C01
+import NdnProofs.Props.TlvVarGen
+import NdnGen.TlvVar
 #print axioms Ndn.C01.make_data_wire
 #print axioms Ndn.C01.make_data_unsigned_wire
 #print axioms Ndn.C01.make_interest_wire
@@ -25,3 +27,9 @@ import NdnGen.C01
 #print axioms Ndn.C01.parse_data_value
 #print axioms Ndn.C01.parse_make_data_unsigned
 #print axioms Ndn.Gen.C01.schemas_match
+#print axioms Ndn.TlvVarGen.all_translated
+#print axioms Ndn.TlvVarGen.shrink_length_eq
+#print axioms Ndn.TlvVarGen.write_tl_num_eq
+#print axioms Ndn.TlvVarGen.write_tl_num_neg
+#print axioms Ndn.TlvVarGen.get_tl_num_size_eq
+#print axioms Ndn.TlvVarGen.parse_tl_num_eq
